@@ -16,6 +16,7 @@ Snips == <<
   "{{ a + b }}", "{{ a.b[c]|f(d, 1) }}", "{{ not a and b or c }}", "{{ a is not divisible by(3) }}", "{{ a ? b : c }}",
   "{{ [a, b, 1] }}", "{{ {a: b, 'c': d} }}", "{{ f(a, b) }}", "{{ \"x#{a}y\" }}", "{{ a starts with b }}", "{{ a not in b }}",
   "{{ - a ** 2 }}", "{{ 1 .. 3 }}", "{{ a b-and c }}", "{{ a matches 'x' }}", "{{ (a) }}", "{{ a|f|g }}", "{{ not (a) }}", "{{ a in (b) }}", "{{ {a: {b: \"x#{c}z\"}}.a.b }}", "{{ [{a: \"#{c}\"}] }}", "{{ f({a: \"x#{c}\"}, [1]) }}", "{{ {a: (\"#{c}\")} }}",
+  "{{ 1 .. - 1 }}", "{{ - a .. + b }}", "{{ [- a, + b] }}", "{{ f(- a, not b) }}", "{{ a == - b }}", "{{ {a: - b} }}",
   "{{ not inactive }}", "{{ a is nothing }}", "{{ a in index }}", "{{ isa or b }}",
   "{% if a %}", "{% elseif a == 1 %}", "{% else %}", "{% endif %}", "{% for k, v in s if v %}", "{% endfor %}", "{% set x = a ~ b %}",
   "{% include 'p' with {a: 1} only %}", "{% macro m(a, b) %}", "{% import 'p' as q %}", "{% from 'p' import a as b, c %}",
@@ -61,6 +62,7 @@ IsOpenT(t) == t.typ \in {"PRINT_OPEN", "TAG_OPEN"}
 IsCloseT(t) == t.typ \in {"PRINT_CLOSE", "TAG_CLOSE"}
 IsWordT(t) == t.typ \in {"NAME", "NUMBER"} \/ (t.typ = "OPERATOR" /\ IsAlphaB(t.val[Len(t.val)]))
 SafeSymOp(t) == t.typ = "OPERATOR" /\ t.val \in {<<43>>, <<126>>, <<61, 61>>, <<33, 61>>, <<60>>, <<62>>}       \* + ~ == != < >
+IsSignOp(t) == t.typ = "OPERATOR" /\ t.val \in {<<45>>, <<43>>}
 IsBracketT(t) == t.typ \in {"PARENS_OPEN", "PARENS_CLOSE", "ARRAY_OPEN", "ARRAY_CLOSE"}
 IsQuoteT(t) == t.typ \in {"STRING_OPEN", "STRING_CLOSE"}
 (* may the two tokens be written without anything between them?  Deliberately conservative. *)
@@ -73,6 +75,9 @@ CanAbut(a, b) ==
   \/ (IsBracketT(a) /\ IsBracketT(b))
   \/ (IsWordT(a) /\ b.typ = "PARENS_OPEN") \/ (a.typ = "PARENS_CLOSE" /\ b.typ = "OPERATOR" /\ IsAlphaB(b.val[1]))
   \/ (SafeSymOp(a) /\ b.typ \in {"NAME", "NUMBER", "STRING_OPEN", "PARENS_OPEN"}) \/ (SafeSymOp(b) /\ a.typ \in {"NAME", "NUMBER", "STRING_CLOSE", "PARENS_CLOSE"})
+  (* a sign after a range operator, a comparison, an opening bracket or a separator: no operator of the language is formed *)
+  \/ (IsSignOp(b) /\ ((a.typ = "OPERATOR" /\ a.val \in {<<46, 46>>, <<61, 61>>, <<33, 61>>, <<60>>, <<62>>})
+                       \/ a.typ \in {"PARENS_OPEN", "ARRAY_OPEN"} \/ (a.typ = "PUNCTUATION" /\ a.val \in {<<44>>, <<58>>})))
   \/ (a.typ = "HASH_OPEN" /\ b.typ \in {"NAME", "STRING_OPEN"}) \/ (b.typ = "HASH_CLOSE" /\ a.typ \in {"NAME", "NUMBER", "STRING_CLOSE"})
 (* boundaries inside a string literal or an interpolation are not varied *)
 Fixed(ts, q) == ts[q].typ \in {"STRING_OPEN", "TEXT", "INTERPOLATE_OPEN", "INTERPOLATE_CLOSE"} /\ ts[q + 1].typ \in {"TEXT", "STRING_CLOSE", "INTERPOLATE_OPEN", "INTERPOLATE_CLOSE", "NAME"}
